@@ -29,7 +29,8 @@ ssize_t PyTreeSpec::HashValueImpl() const {
     HashCombine(seed, GetNumLeaves());
     HashCombine(seed, GetNumNodes());
     HashCombine(seed, m_none_is_leaf);
-    HashCombine(seed, m_namespace);
+    // NOTE: `m_namespace` must not be hashed: an empty namespace compares equal to any namespace
+    // in `EqualTo()`, and equal treespecs must have equal hash values.
 
     for (const Node& node : m_traversal) {
         HashCombine(seed, node.kind);
